@@ -12,6 +12,7 @@ import Driver.C15
 import Driver.C14
 import Driver.C12
 import Driver.C01
+import Driver.C05
 open Lean Driver
 
 def dispatch (p : String) (inp impl : Json) : CaseResult :=
@@ -29,6 +30,7 @@ def dispatch (p : String) (inp impl : Json) : CaseResult :=
   | "C14" => C14.handle inp impl
   | "C12" => C12.handle inp impl
   | "C01" => C01.handle inp impl
+  | "C05" => C05.handle inp impl
   | "C07" => C01.handleC07 inp impl
   | "C03" => Signer.handleC03 inp impl
   | _ => { model := Json.null, spec := false, why := "unknown property " ++ p }
